@@ -217,10 +217,32 @@ func (w *World) buildReply(ep *Endpoint, pr *ProbeRec, hp *HopPlan, r *Reply) (b
 	from := mustAddr(fromS)
 	orig := pr.Bytes
 	ip, l4 := pr.IP, pr.L4
+	base, args := splitForm(r.Form)
+	if base == "teXfam" {
+		// the other address family: an ICMPv6 time-exceeded sent by an IPv6 router to ::ffff:<local>,
+		// quoting this IPv4 probe as an IPv6 packet between the IPv4-mapped forms of its addresses (same
+		// transport identifiers; an echo request becomes an ICMPv6 echo request). It answers no probe
+		// of an IPv4 run.
+		if ip.Version != 4 || !from.Is6() || from.Is4In6() || len(orig) < int(ip.HdrLen)+8 {
+			return nil, false
+		}
+		mapped := func(a netip.Addr) netip.Addr { return netip.AddrFrom16(a.As16()) }
+		l4b := append([]byte(nil), orig[ip.HdrLen:]...)
+		nh := ip.Proto
+		if ip.Proto == codec.ProtoICMP {
+			nh = codec.ProtoICMPv6
+			l4b[0] = codec.V6Echo
+		}
+		inner := codec.BuildIPv6(mapped(ip.Src), mapped(ip.Dst), nh, 1, l4b)
+		if len(inner) > 48+8*(r.K%4) {
+			inner = inner[:48+8*(r.K%4)]
+		}
+		m := codec.ICMP(from, mapped(ip.Src), codec.V6TimeExceeded, 0, [4]byte{}, inner)
+		return codec.BuildIPv6(from, mapped(ip.Src), codec.ProtoICMPv6, 61, m), true
+	}
 	if from.Is4() != ip.Dst.Is4() {
 		return nil, false
 	}
-	base, args := splitForm(r.Form)
 	k := r.K
 	quoteForm := func(typ, code uint8, o codec.ICMPErrOpts) ([]byte, bool) {
 		applies := true
